@@ -38,6 +38,16 @@ static std::optional<Failure> check_row(Run &R, size_t i) {
         for (int m = 0; m < 3; m++) { v_outcome o = email_direct(A, TB, m, "a@x." + r.domain, 1); R.eval();
             if (o.rc != want) return Failure{"row-lookup-email", cs.str(), std::string("is_") + ref::MODE_NAME[m] + "_email('a@x." + r.domain + "')->rc = " + std::to_string(o.rc) + ", CSV row says " + r.cls}; }
     }
+    // the class a row is *reported* with when it is not allowed: one object per mode with allow_tld = 0
+    if (!ref::reserved("x." + r.domain)) {
+        static Obj *DENY[4] = {nullptr, nullptr, nullptr, nullptr};
+        for (int m = 0; m < 4; m++) {
+            if (!DENY[m]) { DENY[m] = new Obj(A); DENY[m]->configure(m, 1, 0); }
+            v_outcome o = DENY[m]->is_email_tail(TB, "a@x." + r.domain); R.eval();
+            if (o.ret != 0 || o.errcode != C->eeav_tld[ci] || o.rc != want)
+                return Failure{"row-reported-class", cs.str(), std::string("eav_is_email('a@x.") + r.domain + "') in mode " + ref::MODE_NAME[m] + " with no class allowed -> " + outcome_str(o) + ", CSV row says " + r.cls + " (error code " + std::to_string(C->eeav_tld[ci]) + ")"};
+        }
+    }
     // raw.csv: same row in U-label spelling, mode 6531
     if (T.ulabels.size() == T.puny.rows.size()) {
         const Bytes &u = T.ulabels[i];
